@@ -372,6 +372,28 @@ def evaluate(ctx, deep):
         ctx.count("large_rank1", key=(n, tuple(part), 1, vec.tobytes()[:256]), nontrivial=True,
                   sample={"n": n, "opt_params": opts} if rep == 0 else None)
         eval_case(ctx, vec, opts, "large_rank1")
+    # mid-size registers (9..12 qubits: qubit labels beyond 7, register halves of 5 and more qubits), cheap low ranks
+    for n in ((9, 10, 11, 12) if deep else (9, 10)):
+        odd = n % 2
+        parts = [list(range(n // 2 + odd)),
+                 sorted(int(q) for q in rng.choice(n, size=n // 2 + odd, replace=False)),
+                 sorted(int(q) for q in rng.choice(n, size=int(rng.integers(1, n)), replace=False))]
+        if deep:
+            parts.append(sorted(int(q) for q in rng.choice(n, size=n - 2, replace=False)))
+        for pi, part in enumerate(parts):
+            for r in ((1, 2) if (deep or n == 9) else (1,)):
+                vec = _unit(_cgauss(rng, 2 ** n))
+                opts = {"lr": r, "partition": part}
+                ctx.monitor(f"n={n}")
+                ctx.count("mid_lowrank", key=(n, tuple(part), r, vec.tobytes()[:256]), nontrivial=True,
+                          sample={"n": n, "opt_params": opts} if (n == 9 and pi == 0 and r == 1) else None)
+                eval_case(ctx, vec, opts, "mid_lowrank")
+    n = 9
+    vec = _unit(_cgauss(rng, 2 ** n))
+    opts = {"lr": 0, "partition": list(range(5))}
+    ctx.monitor("n=9")
+    ctx.count("mid_fullrank", key=(n, 0, vec.tobytes()[:256]), nontrivial=True)
+    eval_case(ctx, vec, opts, "mid_fullrank")
     ctx.note("C07: partition entry p designates axis p of v.reshape((2,)*n) (bit n-1-p of the amplitude index), qclib's labelling")
 
 
